@@ -147,4 +147,49 @@ def scatJ1Backward [Add α] [Sub α] [Neg α] [Mul α] [OfNat α 0] (m : MagOps 
     | none => invJ1 m.s sym h0 h1 rc (some ll) (some hs)
     | some g2 => invJ1Rot m.s sym h0 h1 g2 rc (some ll) (some hs)
 
+/-! ### backward of the second-order layer -/
+
+/-- the cotangent of the six complex bands of one analysis: `(d · re/r, d · im/r)` with `r = sq(re² + im² + b²)`
+(the factors `dsdx`, `dsdy` the Function saves) -/
+def bandCot [Add α] [Mul α] [OfNat α 0] (m : MagOps α) (bands : List (Cplx α)) (d : Nat → Img α) : List (Cplx α) :=
+  (List.range 6).map fun o =>
+    let cz := bands.getD o ([], [])
+    let rr := magR m cz
+    (imap2 (fun d t => d * t) (d o) (imap2 m.dv cz.1 rr), imap2 (fun d t => d * t) (d o) (imap2 m.dv cz.2 rr))
+
+def inv1 [Add α] [Sub α] [Neg α] [Mul α] [OfNat α 0] (m : MagOps α) (sym : Bool) (h0 h1 : List α) (h2 : Option (List α))
+    (ll : Img α) (hs : List (Cplx α)) : Option (Img α) :=
+  match h2 with
+  | none => invJ1 m.s sym h0 h1 (bandSize hs) (some ll) (some hs)
+  | some g2 => invJ1Rot m.s sym h0 h1 g2 (bandSize hs) (some ll) (some hs)
+
+/-- `inv_j2plus(_rot)` with the two trees exchanged, as the backward passes call it -/
+def inv2 [Add α] [Sub α] [Neg α] [Mul α] [OfNat α 0] (m : MagOps α) (h0a h1a h0b h1b : List α)
+    (h2 : Option (List α × List α)) (ll : Img α) (hs : List (Cplx α)) : Option (Img α) :=
+  match h2 with
+  | none => invJ2 m.s h0b h1b h0a h1a (some ll) (some hs)
+  | some (h2a, h2b) => invJ2Rot m.s h0b h1b h0a h1a h2b h2a (some ll) (some hs)
+
+/-- `ScatLayerj2(_rot)_f.backward(dZ)` (not colour) on a stack of `C` images whose sides are multiples of 8; `dZ` given as
+the `49C` channel stack of the module (`s0 | pooled first-order low-passes | first-order scale 2 | second order`) -/
+def scatJ2Backward [Add α] [Sub α] [Neg α] [Mul α] [OfNat α 0] (m : MagOps α) (f : Scat2Filters α)
+    (x dZ : List (Img α)) : Option (List (Img α)) := do
+  let C := x.length
+  let r1 := x.map (fwd1 m true f.h0o f.h1o f.h2o)
+  let s1j1 := ((List.range 6).map fun o => r1.map fun p => subBias m (magR m (p.2.getD o ([], [])))).flatten
+  let r2 ← r1.mapM fun p => fwd2 m f.h0a f.h1a f.h0b f.h1b f.h2ab p.1
+  let r3 := s1j1.map (fwd1 m true f.h0o f.h1o f.h2o)
+  -- second order back to the first-order magnitudes (6C channels, index o1*C + c)
+  let dm1 ← (List.range (6*C)).mapM fun k =>
+    inv1 m true f.h0o f.h1o f.h2o (iscale m.q (nearestUp2 (dZ.getD (C + k) [])))
+      (bandCot m (r3.getD k ([], [])).2 fun o2 => dZ.getD (13*C + o2*(6*C) + k) [])
+  -- scale 2 back to the level-1 low-pass
+  let ds0 ← (List.range C).mapM fun c =>
+    inv2 m f.h0a f.h1a f.h0b f.h1b f.h2ab (iscale m.q (nearestUp2 (dZ.getD c [])))
+      (bandCot m (r2.getD c ([], [])).2 fun o => dZ.getD (7*C + o*C + c) [])
+  -- level 1 back to the image
+  (List.range C).mapM fun c =>
+    inv1 m true f.h0o f.h1o f.h2o (ds0.getD c [])
+      (bandCot m (r1.getD c ([], [])).2 fun o => dm1.getD (o*C + c) [])
+
 end WV
